@@ -1,0 +1,3 @@
+//! Re-export of the (already `pub`) noise-protocol types living in a `pub(crate)` module, so a raw
+//! peer can speak the BOLT-8 handshake itself.
+pub use crate::ln::peer_channel_encryptor::{MessageBuf, NextNoiseStep, PeerChannelEncryptor};
